@@ -591,6 +591,9 @@ class MessageManager(ClientLike):
 
         for n in range(len(subscribers)):
             module = subscribers[n]
+            # a subscriber may have been removed while this message was being delivered
+            if self.modules.get(module.conn) is not module:
+                continue
             if module.conn in self.wlist:
                 try:
                     if (
